@@ -206,4 +206,21 @@ PROPS = {
             "a hang is what the 3 s watchdog sees; os.Exit is recognised from the child's exit status and banner",
         ],
     },
+    "C02": {
+        "harness": [{"cmd": "c02", "n": {"quick": 700, "thorough": 40000}, "extra": ["-per", "120"]}],
+        "rule": "random alignments of 1-5 rows whose length is drawn from {1,2,3,9,10,11,49,50,51,59,60,61,79,80,81,100,"
+                "119,120,121,160,161} or uniformly in 1..170 (straddling every writer line/block width), nucleotide or "
+                "protein IUPAC residues in both cases plus '-', '*', '?', names of 1-12 printable characters (<= 10 for "
+                "strict Phylip; occasionally a keyword look-alike), through one of: FASTA, Phylip (relaxed, one-line, "
+                "no-block, strict), Nexus, Clustal, Stockholm written and parsed as strings; FASTA via a .gz file and "
+                "Phylip via an .xz file (OpenWriteFile / ReadAlign); ParseAlignmentAuto on FASTA/Phylip/Nexus/Clustal; a "
+                "stream of 1-3 Phylip alignments through ParseMultiple; non-trivial = at least 2 rows and 11 columns; "
+                "distinct = distinct (configuration, alignment)",
+        "nontrivial": lambda m: len(m.get("names", [])) >= 2 and m.get("L", 0) >= 11,
+        "assumptions": [
+            "only the FASTA writer/parser is modelled (round trip proved for every line width); the other formats are "
+            "judged by the spec oracle on generated alignments (bounded)",
+            "gzip/xz codecs are exercised through temporary files, not modelled",
+        ],
+    },
 }
